@@ -114,7 +114,7 @@ def gen_rule(rng, block, opcode, subblocks):
                 prod.append(var(name))
             total += n
             operands.append(("typed", ty, n))
-        elif c < 0.8:
+        elif c < (0.62 if any(x["pat"][0].get("p") == "par" for sb_ in subblocks for x in sb_["rules"]) else 0.8):
             n = rng.choice([8, 8, 16, 4])
             pat.append({"p": "par", "name": name, "ty": "none", "n": 0, "sub": ""})
             how = rng.random()
@@ -130,7 +130,7 @@ def gen_rule(rng, block, opcode, subblocks):
                              "n": numlit(str(n))})
             total += n
             operands.append(("untyped", n))
-        elif subblocks:
+        elif subblocks or False:
             sb = rng.choice(subblocks)
             pat.append({"p": "par", "name": name, "ty": "sub", "n": 0, "sub": sb["name"]})
             prod.append(var(name))
@@ -309,7 +309,14 @@ def gen_program(rng, isa=None):
     labels = ["lab%d" % i for i in range(nlab)]
     consts = ["k%d" % i for i in range(rng.randrange(0, 3))]
     hot = []
-    if rng.random() < 0.3:
+    bare_regs = [r for sb in isa.get("subblocks", []) if any(x["pat"][0].get("p") == "par" for x in sb["rules"]) for r in sb["regs"]]
+    if bare_regs and rng.random() < 0.7:
+        # symbols named like the registers of a sub-rule block that also takes a bare expression:
+        # `mov a, 1` is then a register by the most-literal-characters rule, not the symbol
+        nm = rng.choice(bare_regs)
+        labels[rng.randrange(nlab)] = nm
+        hot.append(nm)
+    elif rng.random() < 0.3:
         # symbols named like rule parameters (a b c d, v in sub-rules): scoping must keep them apart
         pool = ["a", "a", "b", "b", "c", "v"]
         nm = rng.choice(pool)
@@ -567,9 +574,12 @@ def rerender(rng, P):
     Q = copy.deepcopy(P)
     # consistent renaming of global symbols
     ren = {}
+    # (a symbol spelled like a literal of some pattern - a register name - is not renamed: with the other
+    #  name the line could stop being ambiguous, which changes what it means)
+    literal_words = {part["lc"] for r in Q["rules"] for part in r["pat"] if part["p"] == "lit"}
     if rng.random() < 0.6:
         for it in Q["items"]:
-            if it["k"] in ("label", "const") and it["lvl"] == 0:
+            if it["k"] in ("label", "const") and it["lvl"] == 0 and it["name"].lower() not in literal_words:
                 ren[it["name"]] = it["name"] + rng.choice(["_x", "Z", "_q2"])
     for it in Q["items"]:
         if it["k"] in ("label", "const") and it["lvl"] == 0 and it["name"] in ren:
